@@ -78,6 +78,12 @@ func c18Fix(r *rng, v *Val) {
 		if f != f || math.IsInf(f, 0) {
 			v.D = math.Float64bits(float64(int64(r.next()>>12)) / 1024)
 		}
+		if r.chance(4) { // integer-valued doubles around and beyond the int64 range (spelled as plain digit strings by the 'f' format)
+			v.D = math.Float64bits(math.Ldexp(float64(r.next()>>11), r.intn(40)-10))
+			if r.bool() {
+				v.D |= 1 << 63
+			}
+		}
 	case thrift.I08, thrift.I16, thrift.I32, thrift.I64:
 		if r.chance(15) { // boundary values of the type
 			bits := map[thrift.Type]uint{thrift.I08: 7, thrift.I16: 15, thrift.I32: 31, thrift.I64: 63}[v.T.K]
@@ -185,6 +191,9 @@ func (p *jsp) intLex(v int64) string {
 	if p.num == 0 || !p.r.chance(p.num) {
 		return s
 	}
+	if (v > 1<<53 || v < -(1<<53)) && !p.r.chance(5) {
+		return s // beyond 2^53 a fraction / exponent spelling goes through a double in the code: outside the property's domain (rarely kept)
+	}
 	switch p.r.intn(5) {
 	case 0:
 		if v == 0 {
@@ -218,6 +227,9 @@ func (p *jsp) intLex(v int64) string {
 
 func (p *jsp) dblLex(bits uint64) string {
 	f := math.Float64frombits(bits)
+	if math.Abs(f) >= 1<<62 && math.Abs(f) < 1e25 && p.r.chance(50) {
+		return strconv.FormatFloat(f, 'f', -1, 64)
+	}
 	if p.num > 0 && p.r.chance(p.num) {
 		switch p.r.intn(4) {
 		case 0:
@@ -314,6 +326,8 @@ func (p *jsp) value(b []byte, v *Val) []byte {
 			k := v.Keys[i]
 			if k.T.K == thrift.STRING {
 				b = p.str(b, k.S)
+			} else if k.T.K == thrift.DOUBLE {
+				b = append(append(append(b, '"'), strconv.FormatFloat(math.Float64frombits(k.D), 'g', -1, 64)...), '"')
 			} else {
 				b = append(append(append(b, '"'), strconv.FormatInt(k.I, 10)...), '"')
 			}
@@ -435,7 +449,10 @@ func genC18J2T(r *rng, n int) []c18Item {
 		g := newTgen(r.fork())
 		g.allowReq = true
 		g.maxDepth = 2 + r.intn(3)
-		g.keyKinds = []thrift.Type{thrift.STRING, thrift.STRING, thrift.I08, thrift.I16, thrift.I32, thrift.I64}
+		g.keyKinds = []thrift.Type{thrift.STRING, thrift.STRING, thrift.I08, thrift.I16, thrift.I32, thrift.I64, thrift.STRING, thrift.I32, thrift.I64, thrift.STRING}
+		if r.chance(8) {
+			g.keyKinds = append(g.keyKinds, thrift.DOUBLE)
+		}
 		root := g.genStruct(0)
 		// IDL defaults on some scalar fields
 		for _, s := range g.structs {
